@@ -10,8 +10,10 @@ import (
 	"net/http"
 	"net/http/httptest"
 	"net/url"
+	"os"
 	"path/filepath"
 	"sort"
+	"strconv"
 	"strings"
 	"testing"
 	"time"
@@ -143,6 +145,7 @@ type c18HRoute struct {
 	Params   []c18HItem `json:"params"`
 	Literals []c18HItem `json:"literals"`
 	Headers  []c18HItem `json:"headers"`
+	Suspects []c18HItem `json:"suspects"`
 }
 
 type c18HarvestFile struct {
@@ -213,7 +216,6 @@ func c18BuildRequest(path string, b c18Base, over map[string]string) *http.Reque
 	return req
 }
 
-
 func c18ExtractValue(body []byte) (string, bool) {
 	i := bytes.Index(body, []byte(`id="login_destination_input"`))
 	if i < 0 {
@@ -255,6 +257,8 @@ func TestVerif_C18(t *testing.T) {
 	admin := c18BuildAdmin(env)
 	c18AdminSweep(res, admin, "start-up", "", "")
 	attrCases := &c18AttrCases{}
+	partCases := &c18PartCases{}
+	innerOf := map[string]string{}
 	routes := verifRouteTable()
 	harvest := c18LoadHarvest(t)
 	// every parameter name any handler of the current tree reads (plus a few names no handler reads: a field
@@ -275,6 +279,35 @@ func TestVerif_C18(t *testing.T) {
 		env.serve(req)
 	}
 	c18AdminSweep(res, admin, "users with payload names were added", "", "")
+	// routes from which a function is reachable that the regenerated tables mark as outside the model today (a
+	// hand-built value with an unescaped or unquoted leaf, a non-HTML template executed into a response, hand-written
+	// markup with arguments): c18_harvest.json names them with their call distance.  Empty on a tree whose
+	// obligations hold.
+	type c18Focus struct {
+		route verifRoute
+		depth int
+		why   string
+	}
+	var focus []c18Focus
+	{
+		seenH := map[string]bool{}
+		byHandler := map[string]c18HRoute{}
+		for _, hr := range harvest.Routes {
+			if !seenH[hr.Handler] {
+				seenH[hr.Handler] = true
+				byHandler[hr.Handler] = hr
+			}
+		}
+		for _, route := range routes {
+			if sp := byHandler[route.Handler].Suspects; len(sp) > 0 {
+				focus = append(focus, c18Focus{route, sp[0].Depth, sp[0].Name + ": " + sp[0].Where})
+			}
+		}
+		sort.SliceStable(focus, func(i, j int) bool { return focus[i].depth < focus[j].depth })
+	}
+	// stored (second-order) canaries: security keys whose client-chosen fields carry tagged payloads (c18c.go)
+	c18StoredStage(env, res, routes, len(focus) > 0)
+	c18AdminSweep(res, admin, "security-key registrations whose client-chosen fields carry payloads", "", "")
 	probe := func(route verifRoute, mode, credName string, cookie *http.Cookie, payload string) {
 		target := route.Path
 		form := url.Values{}
@@ -353,39 +386,49 @@ func TestVerif_C18(t *testing.T) {
 			c18AdminSweep(res, admin, "nothing (the admin request itself is hostile)", p, p)
 		}
 	}
-	for _, route := range routes {
-		if strings.HasPrefix(route.Path, "/static/") || strings.HasPrefix(route.Path, "/custom_static/") {
-			continue
+	genericSweep := func() {
+		for _, route := range routes {
+			if strings.HasPrefix(route.Path, "/static/") || strings.HasPrefix(route.Path, "/custom_static/") {
+				continue
+			}
+			if c18Expired() {
+				res.bump("budget_skipped:generic-routes")
+				continue
+			}
+			for _, c := range creds {
+				for pi, p := range payloads {
+					for _, mode := range []string{"query", "post", "path"} {
+						if !verifThorough() && c.name == "pwonly" && pi%2 == 1 {
+							continue
+						}
+						probe(route, mode, c.name, c.cookie, p)
+					}
+				}
+			}
 		}
-		for _, c := range creds {
-			for pi, p := range payloads {
-				for _, mode := range []string{"query", "post", "path"} {
-					if !verifThorough() && c.name == "pwonly" && pi%2 == 1 {
+		// the authenticated user's NAME is request-controlled text too (it was typed into a login form or
+		// came from a federated provider): sessions of users whose names are payloads visit every route
+		for pi, p := range payloads[:4] {
+			for _, level := range []int{AuthTypePassword | AuthTypeU2F, AuthTypePassword} {
+				c := env.cookie(p, level)
+				for _, route := range routes {
+					if strings.HasPrefix(route.Path, "/static/") || strings.HasPrefix(route.Path, "/custom_static/") || c18Expired() {
 						continue
 					}
-					probe(route, mode, c.name, c.cookie, p)
+					probe(route, "plain", fmt.Sprintf("payload-user-%d-level-%d", pi, level), c, p)
+					if level&AuthTypeU2F != 0 {
+						probe(route, "post", fmt.Sprintf("payload-user-%d-level-%d", pi, level), c, p)
+					}
 				}
 			}
 		}
-	}
-	// the authenticated user's NAME is request-controlled text too (it was typed into a login form or
-	// came from a federated provider): sessions of users whose names are payloads visit every route
-	for pi, p := range payloads[:4] {
-		for _, level := range []int{AuthTypePassword | AuthTypeU2F, AuthTypePassword} {
-			c := env.cookie(p, level)
-			for _, route := range routes {
-				if strings.HasPrefix(route.Path, "/static/") || strings.HasPrefix(route.Path, "/custom_static/") {
-					continue
-				}
-				probe(route, "plain", fmt.Sprintf("payload-user-%d-level-%d", pi, level), c, p)
-				if level&AuthTypeU2F != 0 {
-					probe(route, "post", fmt.Sprintf("payload-user-%d-level-%d", pi, level), c, p)
-				}
-			}
-		}
-	}
 
-	c18AdminSweep(res, admin, "the generic sweep of the service port", "", "")
+		c18AdminSweep(res, admin, "the generic sweep of the service port", "", "")
+	}
+	// a budgeted (escalated) run: the dictionary probes and the focus stage come first
+	if !c18Budgeted() {
+		genericSweep()
+	}
 	// ---- dictionary-driven probes: per route, start from a request that gets as far as the route lets it
 	// today, then (a) replace/add ONE harvested parameter at a time by a payload, for every credential kind,
 	// GET and POST; (b) for the credential kinds on which the base request succeeds, additionally set every
@@ -455,7 +498,7 @@ func TestVerif_C18(t *testing.T) {
 		u2fTokenManagementPath:  {{name: "u2f-manage", method: "POST", form: form("username", "alice", "index", "0", "name", "key", "action", "Update")}},
 		totpTokenManagementPath: {{name: "totp-manage", method: "POST", form: form("username", "alice", "index", "0", "name", "key", "action", "Update")}},
 		paths.SendAuthDocument:  {{name: "send-auth-document", method: "GET", form: form("port", "12345")}, {name: "send-auth-document", method: "POST", form: form("port", "12345")}},
-		bootstrapOtpAuthPath: {{name: "bootstrap-otp", method: "POST", creds: []string{"pwonly"}, form: func() url.Values { return form("OTP", otpFor("alice"))() }}},
+		bootstrapOtpAuthPath:    {{name: "bootstrap-otp", method: "POST", creds: []string{"pwonly"}, form: func() url.Values { return form("OTP", otpFor("alice"))() }}},
 		certgenPath: {{name: "certgen-x509", method: "POST", suffix: "alice", file: "pubkeyfile", creds: []string{"user"}, form: form("type", "x509", "pubkeyfile", keys.pemPub)},
 			{name: "certgen-ssh", method: "POST", suffix: "alice", file: "pubkeyfile", creds: []string{"user"}, form: form("type", "ssh", "pubkeyfile", keys.sshPub)}},
 	}
@@ -472,6 +515,7 @@ func TestVerif_C18(t *testing.T) {
 		hPayloads = payloads
 	}
 	type c18Mode struct{ param, value string }
+	wrapperOf := map[string]string{}
 	hsend := func(route verifRoute, b c18Base, credName string, mode c18Mode, param, payload string) int {
 		over := map[string]string{}
 		if mode.param != "" {
@@ -494,6 +538,9 @@ func TestVerif_C18(t *testing.T) {
 		var problems []string
 		if isHTML {
 			problems = c18Scan(body)
+		}
+		if in, ok := innerOf[payload]; ok && isHTML {
+			partCases.collect(res, b.method+" "+route.Path+" as "+credName+" (base "+b.name+") parameter "+param, body, in, wrapperOf[payload], payload)
 		}
 		modeS := ""
 		if mode.param != "" {
@@ -520,13 +567,102 @@ func TestVerif_C18(t *testing.T) {
 			}
 			res.hit(verifHit{Key: "C18:markup:" + route.Path + ":" + param, Oracle: "request-controlled text became an element, attribute or script content of a response rendered as a document",
 				What: fmt.Sprintf("%s %s%s as %s, %s (base %s): parameter %s = %q -> status %d, Content-Type %s: %s", b.method, route.Path, b.suffix, credName, map[bool]string{true: "with " + modeS, false: "no mode parameter"}[modeS != ""], b.name, param, payload, rr.Code, declared, strings.Join(problems, "; ")),
-				Case: map[string]interface{}{"route": route.Path, "method": b.method, "base": b.name, "cred": credName, "mode": modeS, "param": param, "payload": payload}, Observed: problems})
+				Case: map[string]interface{}{"route": route.Path, "method": b.method, "base": b.name, "cred": credName, "mode": modeS, "param": param, "payload": payload, "wrapper": wrapperOf[payload]}, Observed: problems})
 		}
 		return rr.Code
 	}
+	// ---- focus stage: the thorough volume (all payloads bare and wrapped, every credential kind, every harvested
+	// parameter) on the routes that reach a suspect function, nearest first, within a time budget
+	// (only while no canary has fired: the stage exists to find an input for a broken obligation; in a budgeted
+	// = escalated run it comes before the dictionary probes and may use a third of the budget)
+	focusStage := func() {
+		if len(focus) > 0 && (!verifThorough() || c18Budgeted()) && len(res.Hits) == 0 {
+			focusStart := time.Now()
+			budget := 60 * time.Second
+			if n, err := strconv.Atoi(os.Getenv("VERIF_C18_BUDGET_S")); err == nil && n > 0 {
+				budget = time.Duration(n) * time.Second / 3
+			}
+			var focused []string
+			allBare := append(c18BasePayloads(), c18UnquotedPayloads()...)
+			wrapIn := append(c18UnquotedPayloads(), c18BasePayloads()[:4]...)
+		focusLoop:
+			for _, fc := range focus {
+				route := fc.route
+				if strings.HasPrefix(route.Path, "/static/") || strings.HasPrefix(route.Path, "/custom_static/") {
+					continue
+				}
+				focused = append(focused, fmt.Sprintf("%s (distance %d to %s)", route.Path, fc.depth, fc.why))
+				hr := hv[route.Handler]
+				bs := bases[route.Path]
+				if len(bs) == 0 {
+					bs = []c18Base{{name: "bare", method: "GET"}, {name: "bare", method: "POST"}}
+				}
+				for _, b := range bs {
+					var params []string
+					seenP := map[string]bool{}
+					for _, it := range hr.Params {
+						if !seenP[it.Name] {
+							seenP[it.Name] = true
+							params = append(params, it.Name)
+						}
+					}
+					if b.form != nil {
+						var baseKeys []string
+						for k := range b.form() {
+							baseKeys = append(baseKeys, k)
+						}
+						sort.Strings(baseKeys)
+						for _, k := range baseKeys {
+							if !seenP[k] {
+								seenP[k] = true
+								params = append(params, k)
+							}
+						}
+					}
+					var order []string
+					for _, c := range hcreds {
+						order = append(order, c.name)
+					}
+					if b.creds != nil {
+						order = b.creds
+					}
+					for _, cn := range order {
+						for _, pm := range params {
+							if time.Since(focusStart) > budget {
+								res.bump("focus_budget_exhausted")
+								break focusLoop
+							}
+							for _, pl := range allBare {
+								res.bump("focused_probes")
+								hsend(route, b, cn, c18Mode{}, pm, pl)
+							}
+							for _, pl := range wrapIn {
+								for _, w := range c18Wrappers(pl) {
+									wrapperOf[w.text] = w.wrapper
+									innerOf[w.text] = pl
+									res.bump("focused_probes")
+									hsend(route, b, cn, c18Mode{}, pm, w.text)
+								}
+							}
+						}
+					}
+				}
+			}
+			res.Extra["focused_routes"] = focused
+			res.Extra["focus_stage_ms"] = time.Since(focusStart).Milliseconds()
+		}
+	}
+	if c18Budgeted() {
+		focusStage()
+	}
 	routeTimes := map[string]string{}
+	var wrapMs int64
 	for _, route := range routes {
 		if strings.HasPrefix(route.Path, "/static/") || strings.HasPrefix(route.Path, "/custom_static/") {
+			continue
+		}
+		if c18Expired() {
+			res.bump("budget_skipped:dictionary-routes")
 			continue
 		}
 		hr := hv[route.Handler]
@@ -593,6 +729,36 @@ func TestVerif_C18(t *testing.T) {
 					}
 				}
 			}
+			wrapStart := time.Now()
+			// (a') the same with every payload WRAPPED in the forms a handler may take apart before it renders a
+			// part (e-mail address, URL, path, list, JSON, base64): without credentials (the failure path: login
+			// page) and with the first credential the base succeeds with; every listed credential for the routes
+			// with a base of their own (login, second factor, ...)
+			wrapCreds := []string{"none"}
+			if b.creds != nil {
+				wrapCreds = order
+			} else if len(okCreds) > 0 && okCreds[0] != "none" {
+				wrapCreds = append(wrapCreds, okCreds[0])
+				if verifThorough() && len(okCreds) > 1 {
+					wrapCreds = append(wrapCreds, okCreds[len(okCreds)-1])
+				}
+			}
+			for _, cn := range wrapCreds {
+				for _, pm := range params {
+					for pli, pl := range c18WrapPayloads() {
+						for wi, w := range c18Wrappers(pl) {
+							if pli > 0 && wi%3 != 0 && !verifThorough() {
+								continue // quick: every wrapper with the blank payload, every third with the others
+							}
+							wrapperOf[w.text] = w.wrapper
+							innerOf[w.text] = pl
+							res.bump("wrapped_probes")
+							hsend(route, b, cn, c18Mode{}, pm, w.text)
+						}
+					}
+				}
+			}
+			wrapMs += time.Since(wrapStart).Milliseconds()
 			// (b) modes: parameter := literal, for the credentials the route accepts
 			modeCreds := okCreds
 			if !verifThorough() && len(modeCreds) > 1 {
@@ -626,6 +792,12 @@ func TestVerif_C18(t *testing.T) {
 		routeTimes[route.Path] = fmt.Sprintf("%d probes, %d ms", res.counts["harvest_probes"]-probesBefore, time.Since(routeStart).Milliseconds())
 	}
 	res.Extra["harvest_route_cost"] = routeTimes
+	if !c18Budgeted() {
+		focusStage()
+	} else {
+		genericSweep()
+	}
+	res.Extra["wrapped_probes_ms"] = wrapMs
 	c18AdminSweep(res, admin, "the dictionary-driven probes of the service port", "", "")
 	// ---- nested canaries: destinations that are keymaster URLs with canary parameters, on every variant of the
 	// second-factor page (c18b.go)
@@ -872,6 +1044,8 @@ func TestVerif_C18(t *testing.T) {
 	sb.WriteString("Definition ebad (c : N * bs * bs) : bool :=\n  let '(k, s, out) := c in\n  let cx := if k =? 0 then CtxText else if k =? 1 then CtxAttrQuoted else CtxAttrUnquoted in\n  negb (bs_eqb (render_field cx s) out).\n")
 	sb.WriteString("Definition c18_escaper_mismatches := Eval vm_compute in mismatches ebad ecases.\nPrint c18_escaper_mismatches.\nDefinition c18_necases := Eval vm_compute in length ecases.\nPrint c18_necases.\n")
 	sb.WriteString(attrCases.coq())
+	sb.WriteString(partCases.coq())
+	ioutil.WriteFile(filepath.Join(verifOut(), "CasesC18p.idx"), []byte(strings.Join(partCases.idx, "\n")), 0644)
 	ioutil.WriteFile(filepath.Join(verifOut(), "CasesC18a.idx"), []byte(strings.Join(attrCases.idx, "\n")), 0644)
 	if err := ioutil.WriteFile(filepath.Join(verifOut(), "CasesC18.v"), []byte(sb.String()), 0644); err != nil {
 		t.Fatal(err)
